@@ -3,6 +3,7 @@ import CfbVerif.Drv.Names
 import CfbVerif.Drv.Time
 import CfbVerif.Drv.Api
 import CfbVerif.Drv.Raw
+import CfbVerif.Drv.Lock
 
 def main (args : List String) : IO UInt32 := do
   match args with
@@ -11,4 +12,5 @@ def main (args : List String) : IO UInt32 := do
   | ["time"] => CfbVerif.Drv.Time.main; return 0
   | ["api"] => CfbVerif.Drv.Api.main; return 0
   | ["raw"] => CfbVerif.Drv.Raw.main; return 0
+  | ["locks"] => CfbVerif.Drv.Lock.main; return 0
   | _ => IO.eprintln "usage: driver <handle|...>"; return 2
